@@ -854,3 +854,6 @@ func onlyLoadStore(v ssa.Value, depth int) bool {
 	}
 	return true
 }
+
+// topEntry is the entry state of the function under verification.
+func (f *frame) topEntry() *State { return topFrame(f).entry }
